@@ -3,7 +3,7 @@
      init : 0                      MemStorage::new()
           | 1 <list voters> <list learners>   MemStorage::new_with_conf_state((v, l))
      <list> = n x1..xn ; <cs> = <list voters> <list learners> <list voters_outgoing>
-              <list learners_next> auto_leave ; <entry> = type term index datalen fill ctxlen sync
+              <list learners_next> auto_leave ; <entry> = type term index datalen fill ctxlen
               (data = datalen bytes all equal to fill, context = ctxlen bytes equal to fill)
      ops  : 0 term vote commit     set_hardstate
             1 c                    mut_hard_state().set_commit(c)
@@ -28,27 +28,19 @@
    Output : per op  0 <value>   (Ok)   |  1 code  (storage error)
             and on a panic 999999 site, after which the run stops.
             An undecodable tail yields 888888. *)
-From RV Require Import Base.Prelude M.Util M.MemStorage.
+From RV Require Import Base.Prelude M.Util M.MemStorage Run.Wire.
 
 Local Open Scope N_scope.
 
 (* ---------- decoding ---------- *)
-Definition take_list (l : list N) : option (list N * list N) :=
-  match l with
-  | n :: r =>
-      let k := N.to_nat n in
-      if (length r <? k)%nat then None else Some (firstn k r, skipn k r)
-  | [] => None
-  end.
-
 Definition parse_cs (l : list N) : option (conf_state * list N) :=
-  match take_list l with
+  match dec_list l with
   | Some (v, l1) =>
-    match take_list l1 with
+    match dec_list l1 with
     | Some (le, l2) =>
-      match take_list l2 with
+      match dec_list l2 with
       | Some (vo, l3) =>
-        match take_list l3 with
+        match dec_list l3 with
         | Some (ln, b :: l4) => Some (mkCS v le vo ln (negb (b =? 0)), l4)
         | _ => None
         end
@@ -60,9 +52,9 @@ Definition parse_cs (l : list N) : option (conf_state * list N) :=
   end.
 
 Definition parse_vl (l : list N) : option (conf_state * list N) :=
-  match take_list l with
+  match dec_list l with
   | Some (v, l1) =>
-    match take_list l1 with
+    match dec_list l1 with
     | Some (le, l2) => Some (cs_from v le, l2)
     | None => None
     end
@@ -74,11 +66,11 @@ Fixpoint parse_entries (k : nat) (l : list N) : option (list entry * list N) :=
   | O => Some ([], l)
   | S k' =>
       match l with
-      | ty :: te :: ix :: dl :: fill :: cl :: sy :: r =>
+      | ty :: te :: ix :: dl :: fill :: cl :: r =>
           match parse_entries k' r with
           | Some (es, r') =>
-              Some (mkEntry te ix ty (repeat fill (N.to_nat dl)) (repeat fill (N.to_nat cl))
-                            (negb (sy =? 0)) :: es, r')
+              Some (mkEntry ty te ix (repeat fill (N.to_nat dl)) (repeat fill (N.to_nat cl))
+                    :: es, r')
           | None => None
           end
       | _ => None
@@ -133,13 +125,15 @@ Definition enc_cs (c : conf_state) : list N :=
 
 Definition sum_bytes (l : list N) : N := fold_right N.add 0 l.
 
-Definition enc_entry (e : entry) : list N :=
+(* compact entry encoding (lengths and byte sums instead of the bytes of Wire.enc_entry,
+   to keep exhaustive runs small) *)
+Definition enc_entry_c (e : entry) : list N :=
   [e_type e; e_term e; e_index e;
    N.of_nat (length (e_data e)); sum_bytes (e_data e);
-   N.of_nat (length (e_context e)); enc_bool (e_sync_log e)].
+   N.of_nat (length (e_context e))].
 
-Definition enc_entries (l : list entry) : list N :=
-  N.of_nat (length l) :: flat_map enc_entry l.
+Definition enc_entries_c (l : list entry) : list N :=
+  N.of_nat (length l) :: flat_map enc_entry_c l.
 
 Definition enc_snap (s : snapshot) : list N :=
   [s_index s; s_term s] ++ enc_cs (s_cs s).
@@ -158,7 +152,7 @@ Definition enc_ret (r : ret) : list N :=
   match r with
   | RUnit => []
   | RNum n => [n]
-  | REntries l => enc_entries l
+  | REntries l => enc_entries_c l
   | RSnap s => enc_snap s
   | RState h c => enc_hs h ++ enc_cs c
   | RHard h => enc_hs h
@@ -188,7 +182,7 @@ Definition dump (m : mem) : list N * bool :=
       if f <=? l then
         match storage_entries m f (l + 1) (Some NO_LIMIT) (CtxEmpty false) with
         | Panic s => (pre2 ++ [PANIC; s], false)
-        | Ok (_, SOk es) => (pre2 ++ enc_entries es ++ [snap_index m; snap_term m], true)
+        | Ok (_, SOk es) => (pre2 ++ enc_entries_c es ++ [snap_index m; snap_term m], true)
         | Ok (_, SErr e) => (pre2 ++ [1; serr_code e], false)
         end
       else (pre2 ++ [0] ++ [snap_index m; snap_term m], true)
